@@ -209,6 +209,7 @@ type keyInfoSelectionPopper struct {
 
 func (p *keyInfoSelectionPopper) LeaveField(ref int) {
 	p.visitor.selectionStack = p.visitor.selectionStack[:len(p.visitor.selectionStack)-1]
+	p.visitor.LeaveField(ref)
 }
 
 func (v *keyInfoVisitor) EnterField(ref int) {
@@ -234,6 +235,8 @@ func (v *keyInfoVisitor) EnterField(ref int) {
 
 	if !hasNode {
 		// TODO: report an error
+		// keep the key path stack balanced with LeaveField
+		v.currentKeyPath = append(v.currentKeyPath, KeyInfoFieldPath{Path: currentPath})
 		return
 	}
 
@@ -285,7 +288,7 @@ func (v *keyInfoVisitor) EnterField(ref int) {
 		v.hasExternalFields = true
 	}
 
-	v.currentKeyPath = append(v.keyPaths, fieldKeyPath)
+	v.currentKeyPath = append(v.currentKeyPath, fieldKeyPath)
 }
 
 func (v *keyInfoVisitor) LeaveField(ref int) {
